@@ -302,7 +302,9 @@ def check(run: Run, ctx) -> None:
     known = findings.Known(run, PROP)
     run.cov["rule"] = ("oracle: random documents -> generated client imported in a fresh interpreter -> for every operation and every declared 2xx response the fake "
                        "server answers with a conforming body (two instances each) in the declared media type (json, text, binary, event-stream, ndjson); the returned "
-                       "value is re-serialised with the package's runtime and compared (C03 tolerance for absent optionals). Distinct by (document, operation, status, body); "
+                       "value is re-serialised with the package's runtime and compared (C03 tolerance for absent optionals); next to a STREAMED primary response (documents "
+                       "`stream-plus`, the shape of the repaired F35) another 2xx response must come back as the only item of the async iterator, one without content as an "
+                       "iterator without items. Distinct by (document, operation, status, body); "
                        "non-trivial when the response has content")
     from . import _generic as g
     g.run_corr(run, ctx, "vf.corr.gencode", "GenCode (buildRequest/handle on generated clients, both transports)", quick=0.4, thorough=3.0)
